@@ -312,29 +312,30 @@ type cChunk struct {
 }
 
 type cRun struct {
-	s            *CScenario
-	profile      string
-	out          *Outcome
-	fs           *simfs.FS
-	chunks       map[string]*cChunk
-	order        []*cChunk
-	ev           chan struct{}
-	logbuf       bytes.Buffer
-	killedGen    int
-	killOp       simfs.Op
-	kindCount    map[string]int // per generation: chunk-file ops by kind
-	curGen       int
-	inShutdown   bool
-	notes        []string
-	nextNum      int
-	trace        []simfs.Op
-	dropped      []int // per generation dropped_chunks_total
-	queueDir     string
-	curMF        *promreg.MetricFactory
-	planted      map[string]bool
-	startFiles   map[string]bool
-	prevTotal    int64
-	destroyTotal int64
+	s             *CScenario
+	profile       string
+	out           *Outcome
+	fs            *simfs.FS
+	chunks        map[string]*cChunk
+	order         []*cChunk
+	ev            chan struct{}
+	logbuf        bytes.Buffer
+	killedGen     int
+	killOp        simfs.Op
+	kindCount     map[string]int // per generation: chunk-file ops by kind
+	curGen        int
+	inShutdown    bool
+	notes         []string
+	nextNum       int
+	trace         []simfs.Op
+	dropped       []int // per generation dropped_chunks_total
+	queueDir      string
+	curMF         *promreg.MetricFactory
+	planted       map[string]bool
+	handbackBytes int64 // bytes of chunks a finishing consumer has handed back in this generation
+	startFiles    map[string]bool
+	prevTotal     int64
+	destroyTotal  int64
 }
 
 func (r *cRun) notify() {
@@ -566,6 +567,7 @@ func (r *cRun) runGen(g int, gen *CGen, final bool) {
 	r.curMF = mf
 	r.startFiles = map[string]bool{}
 	r.prevTotal = 0
+	r.handbackBytes = 0
 	for id, d := range r.files() {
 		r.startFiles[id] = true
 		r.prevTotal += int64(len(d))
@@ -670,6 +672,9 @@ func (r *cRun) consumer(g int, gen *CGen, args base.ChunkConsumerArgs) {
 			if cc := r.chunks[c.ID]; cc != nil {
 				cc.handedBack++
 			}
+			// a consumer that ends saves what it holds while the producer may be spilling: these are "the chunks being saved
+			// concurrently at shutdown" of the statement's allowance, also when it is only the consumer that shuts down
+			r.handbackBytes += int64(len(c.Data))
 			args.OnChunkLeftover(c)
 		}
 		args.OnFinished()
@@ -815,7 +820,7 @@ func (r *cRun) checkDuring(g int) {
 	r.out.Obligations++
 	// a write in normal operation is only allowed while the total stays within the limit; an excess inherited from a
 	// shutdown (concurrent savers) may persist but must not grow
-	if total > r.s.MaxBufBytes && total > r.prevTotal {
+	if total > r.s.MaxBufBytes+r.handbackBytes && total > r.prevTotal {
 		r.note("C03", r.diskBoundRule(), "queue files grew from %d to %d bytes during normal operation, limit is %d", r.prevTotal, total, r.s.MaxBufBytes)
 	}
 	r.prevTotal = total
